@@ -228,45 +228,135 @@ Proof.
   - rewrite map_length. unfold zseq. rewrite zrange_length. f_equal. lia.
 Qed.
 
-(** the first write to a new fixed-size dataset in fill mode: everything before and after the transfer
-    is written with the fill value, and the element gets its full length *)
+(* ---- the chunked fill loops of hdf_xdr_NCvdata ------------------------------------------------ *)
+Lemma min_macro : forall a b, (if Z.eqb (if Z.ltb a b then 1 else 0) 0 then b else a) = Z.min a b.
+Proof. intros. destruct (a <? b) eqn:E; simpl; [apply Z.ltb_lt in E | apply Z.ltb_ge in E]; lia. Qed.
+
+Lemma lead_step_spec : forall b c, vdata_lead_loop_step b c = (b - c, Z.min c (b - c)).
+Proof. intros. unfold vdata_lead_loop_step. cbv zeta. rewrite min_macro. reflexivity. Qed.
+Lemma trail_step_spec : forall b c, vdata_trail_loop_step b c = (b - c, Z.min c (b - c)).
+Proof. intros. unfold vdata_trail_loop_step. cbv zeta. rewrite min_macro. reflexivity. Qed.
+Lemma lead_more_spec : forall b c, truth (vdata_lead_loop_more b c) = (0 <? b).
+Proof. intros. unfold truth, vdata_lead_loop_more. destruct (0 <? b); reflexivity. Qed.
+Lemma trail_more_spec : forall b c, truth (vdata_trail_loop_more b c) = (0 <? b).
+Proof. intros. unfold truth, vdata_trail_loop_more. destruct (0 <? b); reflexivity. Qed.
+Lemma lead_init_spec : forall b, vdata_lead_loop_init b = Z.min b MAX_SIZE.
+Proof. intros. unfold vdata_lead_loop_init, MAX_SIZE. apply min_macro. Qed.
+Lemma trail_init_spec : forall b, vdata_trail_loop_init b = Z.min b MAX_SIZE.
+Proof. intros. unfold vdata_trail_loop_init, MAX_SIZE. apply min_macro. Qed.
+
+(** the loop as the code performs it (first piece min(buf, MAX_SIZE); then "buf -= chunk; chunk = min(chunk, buf)"
+    while buf > 0) writes pieces of at most MAX_SIZE bytes whose sizes add up to exactly buf, for EVERY buf > 0 *)
+Lemma fill_chunks_sum : forall step more,
+  (forall b c, step b c = (b - c, Z.min c (b - c))) -> (forall b c, truth (more b c) = (0 <? b)) ->
+  forall fuel buf, 0 < buf -> buf <= Z.of_nat fuel * MAX_SIZE ->
+  exists l, fill_chunks step more fuel buf (Z.min buf MAX_SIZE) = Some l /\ sumZ l = buf /\
+            Forall (fun c => 0 < c <= MAX_SIZE) l.
+Proof.
+  intros step more Hs Hm. induction fuel; intros buf Hb Hf. simpl in Hf; lia.
+  cbn [fill_chunks]. rewrite Hs, Hm.
+  assert (HM : MAX_SIZE = 1000000) by reflexivity.
+  destruct (Z_le_gt_dec buf MAX_SIZE).
+  - rewrite Z.min_l by lia. replace (buf - buf) with 0 by lia. simpl (0 <? 0).
+    exists [buf]. split; auto. split. simpl; lia. constructor; [lia | constructor].
+  - rewrite Z.min_r by lia.
+    replace (0 <? buf - MAX_SIZE) with true by (symmetry; apply Z.ltb_lt; lia).
+    rewrite (Z.min_comm MAX_SIZE).
+    destruct (IHfuel (buf - MAX_SIZE)) as [l [E [S F]]]; [lia | lia |].
+    rewrite E. exists (MAX_SIZE :: l). split; auto. split. unfold sumZ in *. cbn [fold_right]. lia.
+    constructor; [lia | auto].
+Qed.
+
+Lemma chunk_fuel_enough : forall b, 0 <= b -> b <= Z.of_nat (chunk_fuel b) * MAX_SIZE.
+Proof.
+  intros. unfold chunk_fuel. assert (HM : MAX_SIZE = 1000000) by reflexivity.
+  pose proof (Z.div_mod b MAX_SIZE ltac:(lia)). pose proof (Z.mod_pos_bound b MAX_SIZE ltac:(lia)).
+  assert (0 <= b / MAX_SIZE) by (apply Z.div_pos; lia).
+  rewrite Z2Nat.id by lia. nia.
+Qed.
+
+Lemma lead_chunks : forall b, 0 < b ->
+  exists l, fill_chunks vdata_lead_loop_step vdata_lead_loop_more (chunk_fuel b) b (vdata_lead_loop_init b) = Some l /\
+            sumZ l = b /\ Forall (fun c => 0 < c <= MAX_SIZE) l.
+Proof.
+  intros. rewrite lead_init_spec.
+  apply (fill_chunks_sum _ _ lead_step_spec lead_more_spec); auto. apply chunk_fuel_enough. lia.
+Qed.
+Lemma trail_chunks : forall b, 0 < b ->
+  exists l, fill_chunks vdata_trail_loop_step vdata_trail_loop_more (chunk_fuel b) b (vdata_trail_loop_init b) = Some l /\
+            sumZ l = b /\ Forall (fun c => 0 < c <= MAX_SIZE) l.
+Proof.
+  intros. rewrite trail_init_spec.
+  apply (fill_chunks_sum _ _ trail_step_spec trail_more_spec); auto. apply chunk_fuel_enough. lia.
+Qed.
+
+(** the first write to a new fixed-size dataset in fill mode, through the chunked fill loops the code performs,
+    for every offset and length: everything before and after the transfer is written with the fill value in
+    pieces of at most MAX_SIZE bytes, the data are transferred at exactly w * esz, and the element gets its
+    full length *)
 Lemma first_write_fills_lemma : forall m w L count vals,
   m_store m = [] -> m_nofill m = false -> 0 < m_esz m ->
   0 <= w -> 0 <= count -> w + count <= L -> var_len m = L * m_esz m ->
   length vals = Z.to_nat count ->
-  exists m' tr,
-    xdr_vdata m true (w * m_esz m) count vals = Some (m', tr, []) /\
+  exists m' lc tc,
+    xdr_vdata m true (w * m_esz m) count vals =
+      Some (m', chunk_transfers 0 lc ++ [TWrite (w * m_esz m) (count * m_esz m)] ++
+                chunk_transfers (w * m_esz m + count * m_esz m) tc, []) /\
+    sumZ lc = w * m_esz m /\ sumZ tc = (L - w - count) * m_esz m /\
+    Forall (fun c => 0 < c <= MAX_SIZE) (lc ++ tc) /\
     m_store m' = repeat (Val (fill_of m)) (Z.to_nat w) ++ vals ++
                  repeat (Val (fill_of m)) (Z.to_nat (L - w - count)) /\
     Z.of_nat (length (m_store m')) * m_esz m = var_len m.
 Proof.
   intros m w L count vals Hst Hnf Hesz Hw Hc HL Hlen Hv.
-  unfold xdr_vdata, elem_length. rewrite Hst, Hnf. cbn [length Z.of_nat].
+  unfold xdr_vdata, elem_length. cbv zeta. rewrite Hst, Hnf. cbn [length Z.of_nat].
   replace (m_esz m * 0) with 0 by lia. simpl andb. cbv iota.
-  replace (w * m_esz m / m_esz m) with w by (symmetry; apply Z.div_mul; lia).
   set (f := Val (fill_of m)).
-  assert (S1 : (if truth (vdata_lead_fill 0 (w * m_esz m)) && true then repeat f (Z.to_nat w) else []) = repeat f (Z.to_nat w)).
+  (* leading fill *)
+  assert (LEAD : exists lc,
+     (if truth (vdata_lead_fill 0 (w * m_esz m)) && true
+      then fill_chunks vdata_lead_loop_step vdata_lead_loop_more (chunk_fuel (w * m_esz m)) (w * m_esz m)
+                       (vdata_lead_loop_init (w * m_esz m)) else Some []) = Some lc /\
+     sumZ lc = w * m_esz m /\ Forall (fun c => 0 < c <= MAX_SIZE) lc /\
+     (if truth (vdata_lead_fill 0 (w * m_esz m)) && true then sumZ lc else w * m_esz m) = w * m_esz m /\
+     (if truth (vdata_lead_fill 0 (w * m_esz m)) && true then repeat f (Z.to_nat (w * m_esz m / m_esz m)) else [])
+       = repeat f (Z.to_nat w)).
   { unfold truth, vdata_lead_fill. simpl (0 <=? 0). cbv iota. simpl (1 =? 0). simpl negb. simpl andb.
-    destruct (0 <? w * m_esz m) eqn:E; simpl; auto.
-    apply Z.ltb_ge in E. assert (w = 0) by nia. subst. reflexivity. }
-  rewrite S1.
+    destruct (0 <? w * m_esz m) eqn:E; simpl negb; simpl andb; cbv iota.
+    - apply Z.ltb_lt in E. destruct (lead_chunks _ E) as [l [A [B C]]]. exists l.
+      repeat split; auto. rewrite Z.div_mul by lia. reflexivity.
+    - apply Z.ltb_ge in E. assert (w = 0) by nia. subst. exists []. repeat split; auto. }
+  destruct LEAD as [lc [E1 [S1 [F1 [P1 R1]]]]]. rewrite E1.
+  rewrite !P1. rewrite R1.
+  replace (w * m_esz m / m_esz m) with w by (symmetry; apply Z.div_mul; lia).
   rewrite (write_cells_end (repeat f (Z.to_nat w)) w vals) by (rewrite repeat_length; lia).
   unfold vdata_bytes_left. rewrite Hlen.
   replace (L * m_esz m - (w * m_esz m + count * m_esz m)) with ((L - w - count) * m_esz m) by lia.
   replace ((w * m_esz m + count * m_esz m) / m_esz m) with (w + count)
     by (replace (w * m_esz m + count * m_esz m) with ((w + count) * m_esz m) by lia; symmetry; apply Z.div_mul; lia).
-  replace ((L - w - count) * m_esz m / m_esz m) with (L - w - count) by (symmetry; apply Z.div_mul; lia).
-  assert (S3 : forall st, Z.of_nat (length st) = w + count ->
-     (if truth (vdata_trail_fill 0 ((L - w - count) * m_esz m)) && true
-      then write_cells st (w + count) (repeat f (Z.to_nat (L - w - count))) else st)
-     = st ++ repeat f (Z.to_nat (L - w - count))).
-  { intros st Hl. unfold truth, vdata_trail_fill. simpl (0 <=? 0). cbv iota. simpl (1 =? 0). simpl negb. simpl andb.
-    destruct (0 <? (L - w - count) * m_esz m) eqn:E; simpl.
-    - apply write_cells_end. lia.
-    - apply Z.ltb_ge in E. assert (L - w - count = 0) by nia. rewrite H. simpl. rewrite app_nil_r. reflexivity. }
-  eexists. eexists. split; [reflexivity|].
-  cbn [m_store set_store]. rewrite S3 by (rewrite app_length, repeat_length; lia).
-  split. rewrite <- app_assoc. reflexivity.
+  set (bl := (L - w - count) * m_esz m).
+  assert (TRAIL : exists tc,
+     (if truth (vdata_trail_fill 0 bl) && true
+      then fill_chunks vdata_trail_loop_step vdata_trail_loop_more (chunk_fuel bl) bl (vdata_trail_loop_init bl)
+      else Some []) = Some tc /\
+     sumZ tc = bl /\ Forall (fun c => 0 < c <= MAX_SIZE) tc /\
+     forall st, Z.of_nat (length st) = w + count ->
+       (if truth (vdata_trail_fill 0 bl) && true
+        then write_cells st (w + count) (repeat f (Z.to_nat (sumZ tc / m_esz m))) else st)
+       = st ++ repeat f (Z.to_nat (L - w - count))).
+  { unfold truth, vdata_trail_fill. simpl (0 <=? 0). cbv iota. simpl (1 =? 0). simpl negb. simpl andb.
+    destruct (0 <? bl) eqn:E; simpl negb; simpl andb; cbv iota.
+    - apply Z.ltb_lt in E. destruct (trail_chunks _ E) as [l [A [B C]]]. exists l.
+      repeat split; auto. intros st Hl. rewrite B. unfold bl. rewrite Z.div_mul by lia.
+      apply write_cells_end. lia.
+    - apply Z.ltb_ge in E. unfold bl in *. assert (L - w - count = 0) by nia. exists [].
+      repeat split; auto. simpl; lia. intros. rewrite H. simpl. rewrite app_nil_r. reflexivity. }
+  destruct TRAIL as [tc [E2 [S2 [F2 W2]]]]. rewrite E2.
+  exists (set_store m (repeat f (Z.to_nat w) ++ vals ++ repeat f (Z.to_nat (L - w - count))) (m_numrecs m)), lc, tc.
+  rewrite W2 by (rewrite app_length, repeat_length; lia).
+  rewrite <- app_assoc.
+  split; [reflexivity|]. split; auto. split; auto. split. apply Forall_app; auto.
+  cbn [m_store set_store]. split; auto.
   rewrite !app_length, !repeat_length. nia.
 Qed.
 
@@ -399,4 +489,670 @@ Proof.
   rewrite lin_cons by (unfold zeros; rewrite map_length; auto). rewrite lin_zeros.
   erewrite map_ext. 2:{ intros. rewrite Z.add_comm. reflexivity. }
   rewrite zrange_map_add. f_equal. lia.
+Qed.
+
+(* ---- NCvcmaxcontig returns k  ==>  the dimensions after k are taken whole ---------------------- *)
+Definition tri_ok (x : Z * Z * Z) : Prop := let '(e, s, o) := x in 0 <= e <= s - o.
+Definition tri_whole (x : Z * Z * Z) : Prop := let '(e, s, o) := x in 0 <= e <= s - o /\ s <= e.
+
+Lemma scan_struct : forall l i b k,
+  maxcontig_scan l i b = Some k -> l <> [] -> (i + 1 = b + length l)%nat ->
+  exists after xk before,
+    l = after ++ xk :: before /\ (length before + b = k)%nat /\ Forall tri_whole after /\ tri_ok xk.
+Proof.
+  induction l as [| x r IH]; intros i b k H Hne Hi. congruence.
+  destruct x as [[e s] o]. cbn [maxcontig_scan] in H.
+  rewrite maxcontig_bad_spec, maxcontig_break_spec in H.
+  destruct ((0 <=? e) && (e <=? s - o)) eqn:A; simpl negb in H; cbv iota in H; [| discriminate].
+  apply andb_prop in A. destruct A as [A1 A2]. apply Z.leb_le in A1. apply Z.leb_le in A2.
+  destruct (e <? s) eqn:B.
+  - inversion H; subst. exists [], (e, s, o), r. simpl in *. repeat split; auto; lia.
+  - apply Z.ltb_ge in B. destruct r as [| y r'].
+    + simpl in H. inversion H; subst. exists [], (e, s, o), []. simpl. repeat split; auto; lia.
+    + destruct (IH (Nat.pred i) b k H) as [after [xk [before [E [L [W O]]]]]]. congruence.
+      simpl in *. lia.
+      exists ((e, s, o) :: after), xk, before. rewrite E. repeat split; auto.
+      constructor; auto. simpl. lia.
+Qed.
+
+Lemma combine3_split : forall (A : list (Z * Z * Z)) E S O x B,
+  length S = length E -> length O = length E ->
+  combine (combine E S) O = A ++ x :: B ->
+  exists E1 e E2 S1 s S2 O1 o O2,
+    E = E1 ++ e :: E2 /\ S = S1 ++ s :: S2 /\ O = O1 ++ o :: O2 /\ x = (e, s, o) /\
+    length E1 = length A /\ length S1 = length A /\ length O1 = length A /\
+    length S2 = length E2 /\ length O2 = length E2 /\
+    B = combine (combine E2 S2) O2.
+Proof.
+  induction A as [| a A IH]; intros E S O x B HS HO H.
+  - destruct E as [| e E], S as [| s S], O as [| o O]; simpl in *; try discriminate.
+    inversion H; subst. exists [], e, E, [], s, S, [], o, O. simpl. repeat split; auto; lia.
+  - destruct E as [| e E], S as [| s S], O as [| o O]; simpl in *; try discriminate.
+    inversion H; subst.
+    destruct (IH E S O x B) as [E1 [e' [E2 [S1 [s' [S2 [O1 [o' [O2 P]]]]]]]]]; try lia; auto.
+    destruct P as [P1 [P2 [P3 [P4 [P5 [P6 [P7 [P8 [P9 P10]]]]]]]]].
+    exists (e :: E1), e', E2, (s :: S1), s', S2, (o :: O1), o', O2. subst. simpl. repeat split; auto; lia.
+Qed.
+
+Lemma whole_combine : forall E2 S2 O2, length S2 = length E2 -> length O2 = length E2 ->
+  Forall (fun o => 0 <= o) O2 -> Forall tri_whole (combine (combine E2 S2) O2) ->
+  E2 = S2 /\ O2 = zeros S2.
+Proof.
+  induction E2; destruct S2, O2; simpl; intros; try discriminate; auto.
+  inversion H1; inversion H2; subst. simpl in H9. 
+  destruct (IHE2 S2 O2) as [P Q]; auto; try lia. subst.
+  split; [f_equal; lia | unfold zeros in *; simpl; f_equal; auto; lia].
+Qed.
+
+Lemma vcmaxcontig_sound : forall m origin edges k,
+  length origin = length (m_shape m) -> length edges = length (m_shape m) ->
+  ((if is_recvar m then 1 else 0) < length (m_shape m))%nat ->
+  Forall (fun o => 0 <= o) origin ->
+  vcmaxcontig m origin edges = Some k ->
+  exists pre dk post spre sk epre ek,
+    m_shape m = pre ++ dk :: post /\ origin = spre ++ sk :: zeros post /\ edges = epre ++ ek :: post /\
+    length pre = k /\ length spre = k /\ length epre = k /\ 0 <= ek <= dk - sk.
+Proof.
+  intros m origin edges k Ho He Hb Hpos H.
+  unfold vcmaxcontig in H.
+  set (b := if is_recvar m then 1%nat else 0%nat) in *.
+  set (tr := combine (combine (skipn b edges) (skipn b (m_shape m))) (skipn b origin)) in *.
+  assert (Ltr : length tr = (length (m_shape m) - b)%nat).
+  { unfold tr. rewrite !combine_length, !skipn_length. lia. }
+  destruct (scan_struct (rev tr) (Nat.pred (length (m_shape m))) b k H) as [after [xk [before [E [L [W O]]]]]].
+  - intro C. apply (f_equal (@length _)) in C. rewrite rev_length in C. simpl in C. lia.
+  - rewrite rev_length. lia.
+  - assert (T : tr = rev before ++ xk :: rev after).
+    { rewrite <- (rev_involutive tr), E. rewrite rev_app_distr. simpl. rewrite <- app_assoc. reflexivity. }
+    unfold tr in T.
+    assert (L1 : length (skipn b (m_shape m)) = length (skipn b edges)) by (rewrite !skipn_length; lia).
+    assert (L2 : length (skipn b origin) = length (skipn b edges)) by (rewrite !skipn_length; lia).
+    destruct (combine3_split (rev before) (skipn b edges) (skipn b (m_shape m)) (skipn b origin) xk (rev after) L1 L2 T)
+      as [E1 [ek [E2 [S1 [dk [S2 [O1 [sk [O2 P]]]]]]]]].
+    destruct P as [P1 [P2 [P3 [P4 [P5 [P6 [P7 [P8 [P9 P10]]]]]]]]].
+    assert (Hpos2 : Forall (fun o => 0 <= o) O2).
+    { assert (F : Forall (fun o => 0 <= o) (skipn b origin)).
+      { rewrite <- (firstn_skipn b origin) in Hpos. apply Forall_app in Hpos. tauto. }
+      rewrite P3 in F. apply Forall_app in F. destruct F as [_ F]. inversion F; auto. }
+    assert (Wr : Forall tri_whole (combine (combine E2 S2) O2)).
+    { rewrite <- P10. apply Forall_rev. auto. }
+    destruct (whole_combine E2 S2 O2 P8 P9 Hpos2 Wr) as [Q1 Q2]. subst E2 O2.
+    rewrite rev_length in P5, P6, P7.
+    exists (firstn b (m_shape m) ++ S1), dk, S2, (firstn b origin ++ O1), sk, (firstn b edges ++ E1), ek.
+    repeat split.
+    + rewrite <- app_assoc, <- P2. symmetry. apply firstn_skipn.
+    + rewrite <- app_assoc, <- P3. symmetry. apply firstn_skipn.
+    + rewrite <- app_assoc, <- P1. symmetry. apply firstn_skipn.
+    + rewrite app_length, firstn_length. lia.
+    + rewrite app_length, firstn_length. lia.
+    + rewrite app_length, firstn_length. lia.
+    + subst xk. simpl in O. lia.
+    + subst xk. simpl in O. lia.
+Qed.
+
+Lemma firstn_exact : forall {A} (l r : list A) k, length l = k -> firstn k (l ++ r) = l.
+Proof. induction l; intros; subst; simpl; auto. f_equal. auto. Qed.
+Lemma skipn_exact : forall {A} (l r : list A) k, length l = k -> skipn k (l ++ r) = r.
+Proof. induction l; intros; subst; simpl; auto. Qed.
+
+Lemma block_lin : forall m n p, length p = length (m_shape m) ->
+  block m n p = map (fun i => m_esz m * i) (zrange (lin (m_shape m) p) 1 (Z.to_nat n)).
+Proof.
+  intros. unfold block, zseq. rewrite varoffset_rowmajor_lemma by auto.
+  replace (zrange (lin (m_shape m) p) 1 (Z.to_nat n))
+    with (map (fun x => x + lin (m_shape m) p) (zrange 0 1 (Z.to_nat n))) by (rewrite zrange_map_add; reflexivity).
+  rewrite map_map. apply map_ext. intros. lia.
+Qed.
+
+(** NCvario's transfer plan, at full strength: for every variable (fixed-size or record, rank >= 1 resp. 2),
+    every non-negative start and every edge vector that NCvcmaxcontig accepts, the element offsets of the
+    transfers, concatenated in the order the ripple counter issues them, are exactly the offsets of the slab's
+    cells in row-major order. *)
+Lemma vario_plan_correct_lemma : forall m start edges ps n,
+  length start = length (m_shape m) -> length edges = length (m_shape m) ->
+  ((if is_recvar m then 1 else 0) < length (m_shape m))%nat ->
+  Forall (fun o => 0 <= o) start -> Forall (fun d => 0 <= d) (m_shape m) ->
+  vario_plan m start edges = Some (ps, n) ->
+  flat_map (block m n) ps = map (varoffset m) (slab_cells start (ones start) edges).
+Proof.
+  intros m start edges ps n Hs He Hb Hpos Hsh H.
+  unfold vario_plan in H. destruct (vcmaxcontig m start edges) as [k|] eqn:V; [| discriminate].
+  destruct (vcmaxcontig_sound m start edges k Hs He Hb Hpos V)
+    as [pre [dk [post [spre [sk [epre [ek [S1 [S2 [S3 [L1 [L2 [L3 [Hek Hek2]]]]]]]]]]]]]].
+  assert (N : prod (skipn k edges) = ek * prod post).
+  { rewrite S3. rewrite (skipn_exact epre (ek :: post) k L3). unfold prod. simpl. reflexivity. }
+  assert (P : ps = map (fun p => p ++ skipn k start) (odometer (firstn k start) (firstn k edges)) /\
+              n = ek * prod post).
+  { inversion H. split; [destruct k; auto | congruence]. }
+  clear H. destruct P; subst ps n.
+  assert (F1 : firstn k start = spre) by (rewrite S2; apply firstn_exact; auto).
+  assert (F2 : skipn k start = sk :: zeros post) by (rewrite S2; apply skipn_exact; auto).
+  assert (F3 : firstn k edges = epre) by (rewrite S3; apply firstn_exact; auto).
+  rewrite F1, F2, F3.
+  assert (Hpost : Forall (fun d => 0 <= d) post).
+  { rewrite S1 in Hsh. apply Forall_app in Hsh. destruct Hsh as [_ F]. inversion F; auto. }
+  rewrite flat_map_map'.
+  erewrite flat_map_ext'.
+  2:{ intros p Hp. rewrite odometer_slab in Hp.
+      apply slab_cells_len in Hp; [| unfold ones; rewrite map_length; auto | lia].
+      rewrite block_lin.
+      2:{ rewrite S1, !app_length. simpl. unfold zeros. rewrite map_length. lia. }
+      rewrite S1. reflexivity. }
+  rewrite <- map_flat_map.
+  rewrite vario_blocks_rowmajor_lemma by (auto; lia).
+  rewrite map_map. rewrite <- S2, <- S3, <- S1.
+  apply map_ext_in. intros c Hc.
+  apply slab_cells_len in Hc; [| unfold ones; rewrite map_length; auto | lia].
+  rewrite varoffset_rowmajor_lemma by lia. reflexivity.
+Qed.
+
+(* ---- requests reaching outside the extent are rejected ----------------------------------------- *)
+Lemma coordck_fixed : forall m w p, is_recvar m = false ->
+  coordck m w p = if any2 coordck_bad p (m_shape m) then None else Some (m, []).
+Proof. intros. unfold coordck. rewrite H. destruct (any2 coordck_bad p (m_shape m)); reflexivity. Qed.
+
+Lemma xdr_vdata_shape : forall m w wh c v m2 tr cs,
+  xdr_vdata m w wh c v = Some (m2, tr, cs) -> m_shape m2 = m_shape m.
+Proof.
+  intros m w wh c v m2 tr cs H. unfold xdr_vdata in H. cbv zeta in H.
+  destruct ((elem_length m <=? 0) && negb w); [inversion H; reflexivity |].
+  destruct w.
+  - match type of H with (match ?x with _ => _ end) = _ => destruct x; [| discriminate] end.
+    match type of H with (match ?x with _ => _ end) = _ => destruct x; [| discriminate] end.
+    inversion H. reflexivity.
+  - match type of H with (if ?x then _ else _) = _ => destruct x; [discriminate |] end.
+    inversion H. reflexivity.
+Qed.
+
+Lemma is_recvar_shape : forall m m', m_shape m' = m_shape m -> is_recvar m' = is_recvar m.
+Proof. intros. unfold is_recvar. rewrite H. reflexivity. Qed.
+
+(** the ripple counter fails as soon as one of its positions is outside the shape *)
+Lemma vario_loop_false : forall w n positions a,
+  is_recvar (acc_m a) = false ->
+  (exists p, In p positions /\ any2 coordck_bad p (m_shape (acc_m a)) = true) ->
+  fst (vario_loop w n positions a) = false.
+Proof.
+  induction positions as [| p0 rest IH]; intros a Hr [p [Hin Hbad]]. contradiction.
+  cbn [vario_loop]. rewrite coordck_fixed by auto.
+  destruct (any2 coordck_bad p0 (m_shape (acc_m a))) eqn:B0; [reflexivity |].
+  destruct Hin as [-> | Hin]; [congruence |].
+  destruct (xdr_vdata (acc_m a) w (varoffset (acc_m a) p0) n (firstn (Z.to_nat n) (acc_vals a)))
+    as [[[m2 tr2] cs] |] eqn:X; [| reflexivity].
+  pose proof (xdr_vdata_shape _ _ _ _ _ _ _ _ X) as Sh.
+  apply IH; cbn [acc_m].
+  - rewrite (is_recvar_shape _ _ Sh). auto.
+  - exists p. rewrite Sh. auto.
+Qed.
+
+Lemma all4_app : forall f a1 b1 c1 d1 a2 b2 c2 d2,
+  length b1 = length a1 -> length c1 = length a1 -> length d1 = length a1 ->
+  all4 f (a1 ++ a2) (b1 ++ b2) (c1 ++ c2) (d1 ++ d2) = all4 f a1 b1 c1 d1 && all4 f a2 b2 c2 d2.
+Proof.
+  induction a1; destruct b1, c1, d1; simpl; intros; try discriminate; auto.
+  rewrite IHa1 by lia. rewrite andb_assoc. reflexivity.
+Qed.
+
+Lemma any2_app_l : forall f p d q e, length p = length d -> any2 f p d = true -> any2 f (p ++ q) (d ++ e) = true.
+Proof.
+  induction p; destruct d; simpl; intros; try discriminate.
+  destruct (truth (f a z)); simpl in *; auto.
+Qed.
+
+Lemma in_zrange1 : forall n s x, s <= x < s + Z.of_nat n -> In x (zrange s 1 n).
+Proof.
+  induction n; intros; simpl in *. lia.
+  destruct (Z.eq_dec s x); [left; auto | right; apply IHn; lia].
+Qed.
+
+Lemma odometer_start : forall s e, length e = length s -> Forall (fun c => 1 <= c) e -> In s (odometer s e).
+Proof.
+  induction s; destruct e; simpl; intros; try discriminate; auto.
+  inversion H0; subst. apply in_flat_map. exists a. split.
+  - apply in_zrange1. lia.
+  - apply in_map. apply IHs; auto.
+Qed.
+
+Lemma odometer_len : forall s e p, length e = length s -> In p (odometer s e) -> length p = length s.
+Proof.
+  intros. rewrite odometer_slab in H0.
+  apply (slab_cells_len s (ones s) e p); [unfold ones; apply map_length | auto | auto].
+Qed.
+
+(** if a unit-stride request with positive edges leaves the shape somewhere, the odometer contains a position
+    that lies outside the shape *)
+Lemma oob_bad_position : forall s e d, length e = length s -> length d = length s ->
+  Forall (fun c => 1 <= c) e -> all4 dim_in s (ones s) e d = false ->
+  exists p, In p (odometer s e) /\ any2 coordck_bad p d = true.
+Proof.
+  induction s as [| s0 s IH]; destruct e as [| e0 e], d as [| d0 d]; intros He Hd Hf H; try discriminate.
+  inversion Hf as [| ? ? He0 Hf']; subst.
+  cbn [ones map all4] in H. unfold ones in IH.
+  cbn [odometer].
+  destruct (dim_in s0 1 e0 d0) eqn:D.
+  - simpl in H. destruct (IH e d) as [p [Pin Pbad]]; auto.
+    exists (s0 :: p). split.
+    + apply in_flat_map. exists s0. split. apply in_zrange1; lia. apply in_map; auto.
+    + cbn [any2]. rewrite Pbad. apply orb_true_r.
+  - unfold dim_in, reach in D.
+    assert (St : In s (odometer s e)) by (apply odometer_start; auto).
+    destruct (Z_lt_dec s0 0) as [N | N]; [| destruct (Z_le_dec d0 s0) as [G | G]].
+    + exists (s0 :: s). split.
+      * apply in_flat_map. exists s0. split. apply in_zrange1; lia. apply in_map; auto.
+      * cbn [any2]. rewrite coordck_bad_spec. replace (0 <=? s0) with false by (symmetry; apply Z.leb_gt; lia). reflexivity.
+    + exists (s0 :: s). split.
+      * apply in_flat_map. exists s0. split. apply in_zrange1; lia. apply in_map; auto.
+      * cbn [any2]. rewrite coordck_bad_spec. replace (s0 <? d0) with false by (symmetry; apply Z.ltb_ge; lia).
+        rewrite andb_false_r. reflexivity.
+    + replace (0 <=? s0) with true in D by (symmetry; apply Z.leb_le; lia). simpl in D. apply Z.ltb_ge in D.
+      exists (d0 :: s). split.
+      * apply in_flat_map. exists d0. split. apply in_zrange1; lia. apply in_map; auto.
+      * cbn [any2]. rewrite coordck_bad_spec. replace (d0 <? d0) with false by (symmetry; apply Z.ltb_ge; lia).
+        rewrite andb_false_r. reflexivity.
+Qed.
+
+Lemma any2_false_nonneg : forall p d, length p = length d -> any2 coordck_bad p d = false -> Forall (fun o => 0 <= o) p.
+Proof.
+  induction p; destruct d; simpl; intros; try discriminate; auto.
+  apply orb_false_elim in H0. destruct H0 as [A B]. rewrite coordck_bad_spec in A.
+  apply negb_false_iff in A. apply andb_prop in A. destruct A as [A _]. apply Z.leb_le in A.
+  constructor; auto. apply IHp with d; auto.
+Qed.
+
+Lemma whole_in_range : forall post, all4 dim_in (zeros post) (ones post) post post = true.
+Proof.
+  induction post; auto. unfold zeros, ones in *. cbn [map all4]. rewrite IHpost.
+  unfold dim_in, reach. rewrite andb_true_r. apply andb_true_intro. split.
+  apply Z.leb_le; lia. apply Z.ltb_lt; lia.
+Qed.
+
+Lemma prod_pos : forall l, Forall (fun c => 1 <= c) l -> 1 <= prod l.
+Proof. induction 1; unfold prod in *; simpl. lia. fold (prod l) in *. nia. Qed.
+
+(** NCvario on a fixed-size variable: a unit-stride request with positive edges that reaches outside the shape
+    in any dimension returns -1 -- either NCcoordck rejects the start, or NCvcmaxcontig rejects an edge, or the
+    ripple counter reaches a position NCcoordck rejects. *)
+Lemma vario_oob_fails : forall w a start edges,
+  is_recvar (acc_m a) = false -> (0 < length (m_shape (acc_m a)))%nat ->
+  length start = length (m_shape (acc_m a)) -> length edges = length (m_shape (acc_m a)) ->
+  Forall (fun c => 1 <= c) edges ->
+  all4 dim_in start (ones start) edges (m_shape (acc_m a)) = false ->
+  fst (vario w start edges a) = false.
+Proof.
+  intros w a start edges Hr Hn Hs He Hpos Hout.
+  unfold vario. destruct (m_shape (acc_m a)) as [| d0 dr] eqn:Sh. simpl in Hn; lia.
+  rewrite <- Sh in *. rewrite coordck_fixed by auto.
+  destruct (any2 coordck_bad start (m_shape (acc_m a))) eqn:B; [reflexivity |].
+  cbn [acc_m]. rewrite Hr. cbn [andb].
+  destruct (vario_plan (acc_m a) start edges) as [[ps n] |] eqn:P; [| reflexivity].
+  pose proof (any2_false_nonneg _ _ Hs B) as Hnn.
+  unfold vario_plan in P. destruct (vcmaxcontig (acc_m a) start edges) as [k|] eqn:V; [| discriminate].
+  assert (Hb : ((if is_recvar (acc_m a) then 1 else 0) < length (m_shape (acc_m a)))%nat) by (rewrite Hr; lia).
+  destruct (vcmaxcontig_sound _ _ _ _ Hs He Hb Hnn V)
+    as [pre [dk [post [spre [sk [epre [ek [S1 [S2 [S3 [L1 [L2 [L3 [Hek Hek2]]]]]]]]]]]]]].
+  assert (F1 : firstn k start = spre) by (rewrite S2; apply firstn_exact; auto).
+  assert (F2 : skipn k start = sk :: zeros post) by (rewrite S2; apply skipn_exact; auto).
+  assert (F3 : firstn k edges = epre) by (rewrite S3; apply firstn_exact; auto).
+  assert (F4 : skipn k edges = ek :: post) by (rewrite S3; apply skipn_exact; auto).
+  assert (Pps : ps = map (fun p => p ++ sk :: zeros post) (odometer spre epre) /\ n = prod (ek :: post)).
+  { inversion P. rewrite F4. split; auto. destruct k; rewrite ?F1, ?F2, ?F3; auto.
+    simpl in *. destruct spre, epre; try discriminate. simpl. rewrite F2. reflexivity. }
+  destruct Pps as [-> ->]. clear P.
+  assert (Hep : Forall (fun c => 1 <= c) (ek :: post)).
+  { rewrite S3 in Hpos. apply Forall_app in Hpos. tauto. }
+  pose proof (prod_pos _ Hep) as Hp1.
+  replace (prod (ek :: post) =? 0) with false by (symmetry; apply Z.eqb_neq; lia).
+  (* the leading part of the request is out of range *)
+  assert (Hpre : all4 dim_in spre (ones spre) epre pre = false).
+  { rewrite S1, S2, S3 in Hout.
+    replace (ones (spre ++ sk :: zeros post)) with (ones spre ++ 1 :: ones post) in Hout
+      by (unfold ones, zeros; rewrite map_app; cbn [map]; rewrite map_map; reflexivity).
+    rewrite all4_app in Hout by (unfold ones; rewrite ?map_length; lia).
+    cbn [all4] in Hout. rewrite whole_in_range in Hout.
+    assert (Hsk : 0 <= sk).
+    { rewrite S2 in Hnn. apply Forall_app in Hnn. destruct Hnn as [_ F]. inversion F; auto. }
+    inversion Hep; subst.
+    assert (D : dim_in sk 1 ek dk = true).
+    { unfold dim_in, reach. apply andb_true_intro. split. apply Z.leb_le; auto. apply Z.ltb_lt. lia. }
+    rewrite D in Hout. simpl in Hout. rewrite andb_true_r in Hout. exact Hout. }
+  assert (Hepre : Forall (fun c => 1 <= c) epre).
+  { rewrite S3 in Hpos. apply Forall_app in Hpos. tauto. }
+  destruct (oob_bad_position spre epre pre ltac:(lia) ltac:(lia) Hepre Hpre) as [p' [Pin Pbad]].
+  match goal with |- fst (let (ok, a2) := ?L in _) = false =>
+    assert (LF : fst L = false); [| destruct L as [ok a2]; simpl in LF; subst ok; reflexivity] end.
+  apply vario_loop_false; cbn [acc_m]; auto.
+  exists (p' ++ sk :: zeros post). split.
+  - apply in_map_iff. exists p'. auto.
+  - rewrite S1. apply any2_app_l; auto. rewrite (odometer_len spre epre p') by (auto; lia). lia.
+Qed.
+
+Definition reach_in (s t c d : Z) : bool := reach s t c <? d.
+
+Lemma stride_bad_rest_spec : forall ts cs ds ss,
+  length cs = length ts -> length ds = length ts -> length ss = length ts ->
+  stride_bad_rest ts cs ds ss = negb (all4 reach_in ss ts cs ds).
+Proof.
+  induction ts; destruct cs, ds, ss; simpl; intros; try discriminate; auto.
+  rewrite stride_check_speci, IHts by lia. unfold reach_in.
+  rewrite negb_andb. f_equal. rewrite Z.leb_antisym. reflexivity.
+Qed.
+
+(** SDreaddata with a stride array on a fixed-size dataset: whenever the last index start+(count-1)*stride reaches
+    the extent in ANY dimension, the call returns FAIL before any transfer and without touching the dataset *)
+Lemma sd_read_strided_rejected : forall m start stride count,
+  is_recvar m = false -> (0 < length (m_shape m))%nat ->
+  length start = length (m_shape m) -> length stride = length (m_shape m) -> length count = length (m_shape m) ->
+  all4 reach_in start stride count (m_shape m) = false ->
+  sd_read m true start stride count = (m, MRead (-1) [] []).
+Proof.
+  intros m start stride count Hr Hn Hs Ht Hc H.
+  unfold sd_read. rewrite Hr.
+  destruct (0 <? length (m_shape m))%nat eqn:E; [| apply Nat.ltb_ge in E; lia].
+  destruct (m_shape m) as [| d ds]; [simpl in Hn; lia |].
+  destruct start as [| s ss], stride as [| t ts], count as [| c cs]; try discriminate.
+  cbn [hd tl andb]. rewrite stride_check_spec0.
+  rewrite stride_bad_rest_spec by (simpl in *; lia).
+  cbn [all4] in H. unfold reach_in at 1 in H. rewrite Z.leb_antisym.
+  destruct (reach s t c <? d); simpl in *; [rewrite H; reflexivity | reflexivity].
+Qed.
+
+(** SDreaddata / SDwritedata without strides (stride NULL, or for writes all strides 1) on a fixed-size dataset:
+    a request with positive counts reaching outside the shape in any dimension returns FAIL *)
+Lemma sd_read_unit_rejected : forall m start stride count,
+  is_recvar m = false -> (0 < length (m_shape m))%nat ->
+  length start = length (m_shape m) -> length count = length (m_shape m) ->
+  Forall (fun c => 1 <= c) count ->
+  all4 dim_in start (ones start) count (m_shape m) = false ->
+  exists m' cells tr, sd_read m false start stride count = (m', MRead (-1) cells tr).
+Proof.
+  intros. unfold sd_read. cbn [andb].
+  pose proof (vario_oob_fails false (mkAcc m [] [] []) start count H H0 H1 H2 H3 H4) as F.
+  destruct (vario false start count (mkAcc m [] [] [])) as [ok a']. simpl in F. subst ok.
+  eexists. eexists. eexists. reflexivity.
+Qed.
+
+Lemma sd_write_unit_rejected : forall m us start stride count vals,
+  is_recvar m = false -> (0 < length (m_shape m))%nat ->
+  length start = length (m_shape m) -> length count = length (m_shape m) ->
+  Forall (fun c => 1 <= c) count ->
+  us = false \/ forallb (fun t => t =? 1) stride = true ->
+  all4 dim_in start (ones start) count (m_shape m) = false ->
+  exists m' tr, sd_write m us start stride count vals = (m', MRet (-1) tr).
+Proof.
+  intros m us start stride count vals Hr Hn Hs Hc Hp Hu Hout. unfold sd_write.
+  assert (E : us && negb (forallb (fun t => t =? 1) stride) = false).
+  { destruct Hu as [-> | ->]; auto. apply andb_false_r. }
+  rewrite E.
+  pose proof (vario_oob_fails true (mkAcc m [] [] (map Val vals)) start count Hr Hn Hs Hc Hp Hout) as F.
+  destruct (vario true start count (mkAcc m [] [] (map Val vals))) as [ok a']. simpl in F. subst ok.
+  eexists. eexists. reflexivity.
+Qed.
+
+(* ---- NCgenio: strided requests reaching outside the extent ------------------------------------- *)
+Lemma vario_loop_shape : forall w n positions a,
+  is_recvar (acc_m a) = false ->
+  m_shape (acc_m (snd (vario_loop w n positions a))) = m_shape (acc_m a).
+Proof.
+  induction positions as [| p0 rest IH]; intros a Hr; auto.
+  cbn [vario_loop]. rewrite coordck_fixed by auto.
+  destruct (any2 coordck_bad p0 (m_shape (acc_m a))); auto.
+  destruct (xdr_vdata (acc_m a) w (varoffset (acc_m a) p0) n (firstn (Z.to_nat n) (acc_vals a)))
+    as [[[m2 tr2] cs] |] eqn:X; auto.
+  pose proof (xdr_vdata_shape _ _ _ _ _ _ _ _ X) as Sh.
+  rewrite IH; cbn [acc_m]; auto. rewrite (is_recvar_shape _ _ Sh). auto.
+Qed.
+
+Lemma vario_shape : forall w start edges a,
+  is_recvar (acc_m a) = false -> (0 < length (m_shape (acc_m a)))%nat ->
+  m_shape (acc_m (snd (vario w start edges a))) = m_shape (acc_m a).
+Proof.
+  intros w start edges a Hr Hn. unfold vario.
+  destruct (m_shape (acc_m a)) as [| d0 dr] eqn:Sh. simpl in Hn; lia.
+  rewrite <- Sh. rewrite coordck_fixed by auto.
+  destruct (any2 coordck_bad start (m_shape (acc_m a))); auto.
+  cbn [acc_m]. rewrite Hr. cbn [andb].
+  destruct (vario_plan (acc_m a) start edges) as [[ps n] |]; auto.
+  destruct (n =? 0); auto.
+  pose proof (vario_loop_shape w n ps (mkAcc (acc_m a) (acc_tr a ++ []) (acc_cells a) (acc_vals a)) Hr) as L.
+  destruct (vario_loop w n ps (mkAcc (acc_m a) (acc_tr a ++ []) (acc_cells a) (acc_vals a))) as [ok a2].
+  cbn [snd acc_m] in *. destruct ok; cbn [snd acc_m]; auto.
+  destruct (m_numrecs (acc_m a2) <? hd 0 start + hd 0 edges); cbn [acc_m set_store m_shape]; auto.
+Qed.
+
+Lemma genio_loop_false : forall w io positions a,
+  is_recvar (acc_m a) = false -> (0 < length (m_shape (acc_m a)))%nat ->
+  length io = length (m_shape (acc_m a)) -> Forall (fun c => 1 <= c) io ->
+  (exists p, In p positions /\ length p = length (m_shape (acc_m a)) /\
+             all4 dim_in p (ones p) io (m_shape (acc_m a)) = false) ->
+  fst (genio_loop w io positions a) = false.
+Proof.
+  induction positions as [| p0 rest IH]; intros a Hr Hn Hio Hpos [p [Hin [Hl Hbad]]]. contradiction.
+  cbn [genio_loop].
+  pose proof (vario_shape w p0 io a Hr Hn) as Sh.
+  destruct Hin as [-> | Hin].
+  - pose proof (vario_oob_fails w a p io Hr Hn Hl Hio Hpos Hbad) as F.
+    destruct (vario w p io a) as [ok a1]. simpl in F. subst ok. reflexivity.
+  - destruct (vario w p0 io a) as [ok a1]. cbn [snd] in Sh. destruct ok; [| reflexivity].
+    apply IH; try rewrite Sh; auto.
+    + rewrite (is_recvar_shape _ _ Sh). auto.
+    + exists p. auto.
+Qed.
+
+Lemma in_zrange : forall n s t j, (j < n)%nat -> In (s + Z.of_nat j * t) (zrange s t n).
+Proof.
+  induction n; intros. lia.
+  destruct j; simpl zrange.
+  - left. simpl. lia.
+  - right. replace (s + Z.of_nat (S j) * t) with ((s + t) + Z.of_nat j * t) by lia. apply IHn. lia.
+Qed.
+
+Lemma slab_start_in : forall s t c, length t = length s -> length c = length s ->
+  Forall (fun x => 1 <= x) c -> In s (slab_cells s t c).
+Proof.
+  induction s; destruct t, c; simpl; intros; try discriminate; auto.
+  inversion H1; subst. apply in_flat_map. exists a. split.
+  - replace a with (a + Z.of_nat 0 * z) at 1 by (simpl; lia). apply in_zrange. lia.
+  - apply in_map. apply IHs; auto.
+Qed.
+
+(** a strided request with positive counts and strides that leaves the shape selects a cell outside the shape *)
+Lemma strided_oob_cell : forall s t c d,
+  length t = length s -> length c = length s -> length d = length s ->
+  Forall (fun x => 1 <= x) c -> Forall (fun x => 1 <= x) t ->
+  all4 dim_in s t c d = false ->
+  exists p, In p (slab_cells s t c) /\ any2 coordck_bad p d = true.
+Proof.
+  induction s as [| s0 s IH]; destruct t as [| t0 t], c as [| c0 c], d as [| d0 d];
+    intros Ht Hc Hd Fc Ft H; try discriminate.
+  inversion Fc as [| ? ? Hc0 Fc']; inversion Ft as [| ? ? Ht0 Ft']; subst.
+  cbn [all4] in H. cbn [slab_cells].
+  assert (St : In s (slab_cells s t c)) by (apply slab_start_in; simpl in *; auto; lia).
+  assert (I0 : In s0 (zrange s0 t0 (Z.to_nat c0))).
+  { replace s0 with (s0 + Z.of_nat 0 * t0) at 1 by (simpl; lia). apply in_zrange. lia. }
+  destruct (dim_in s0 t0 c0 d0) eqn:D.
+  - simpl in H. destruct (IH t c d) as [p [Pin Pbad]]; simpl in *; auto; try lia.
+    exists (s0 :: p). split.
+    + apply in_flat_map. exists s0. split; auto. apply in_map; auto.
+    + cbn [any2]. rewrite Pbad. apply orb_true_r.
+  - unfold dim_in in D.
+    destruct (0 <=? s0) eqn:Z0.
+    + simpl in D. apply Z.ltb_ge in D. unfold reach in D.
+      exists ((s0 + (c0 - 1) * t0) :: s). split.
+      * apply in_flat_map. exists (s0 + (c0 - 1) * t0). split.
+        -- replace (c0 - 1) with (Z.of_nat (Z.to_nat (c0 - 1))) by lia. apply in_zrange. lia.
+        -- apply in_map; auto.
+      * cbn [any2]. rewrite coordck_bad_spec.
+        replace (s0 + (c0 - 1) * t0 <? d0) with false by (symmetry; apply Z.ltb_ge; lia).
+        rewrite andb_false_r. reflexivity.
+    + exists (s0 :: s). split.
+      * apply in_flat_map. exists s0. split; auto. apply in_map; auto.
+      * cbn [any2]. rewrite coordck_bad_spec. rewrite Z0. reflexivity.
+Qed.
+
+Lemma bad_cell_all4 : forall p d io, length p = length d -> length io = length d ->
+  Forall (fun c => 1 <= c) io -> any2 coordck_bad p d = true -> all4 dim_in p (ones p) io d = false.
+Proof.
+  induction p; destruct d, io; simpl; intros; try discriminate.
+  inversion H1; subst. rewrite coordck_bad_spec in H2.
+  destruct ((0 <=? a) && (a <? z)) eqn:E; simpl in H2.
+  - rewrite (IHp d io) by (auto; lia). apply andb_false_r.
+  - unfold dim_in, reach. apply andb_false_iff. left.
+    apply andb_false_iff in E. apply andb_false_iff. destruct E as [E | E]; [left; auto | right].
+    apply Z.ltb_ge in E. apply Z.ltb_ge. lia.
+Qed.
+
+Lemma unit_last_spec : forall t e, truth (genio_unit_last t e e) = (t =? 1).
+Proof. intros. unfold truth, genio_unit_last. rewrite Z.eqb_refl. destruct (t =? 1); reflexivity. Qed.
+
+Lemma cartesian_snoc : forall A x, cartesian (A ++ [[x]]) = map (fun p => p ++ [x]) (cartesian A).
+Proof.
+  induction A as [| ax A IH]; intros; simpl; auto.
+  rewrite map_flat_map. apply flat_map_ext'. intros i _. rewrite IH, !map_map. reflexivity.
+Qed.
+
+Lemma map3_snoc : forall {A} (f : Z -> Z -> Z -> A) a b c x y z, length b = length a -> length c = length a ->
+  map3 f (a ++ [x]) (b ++ [y]) (c ++ [z]) = map3 f a b c ++ [f x y z].
+Proof. induction a; destruct b, c; simpl; intros; try discriminate; auto. f_equal. apply IHa; lia. Qed.
+
+Lemma map3_length : forall {A} (f : Z -> Z -> Z -> A) a b c, length b = length a -> length c = length a ->
+  length (map3 f a b c) = length a.
+Proof. induction a; destruct b, c; simpl; intros; try discriminate; auto. Qed.
+
+Lemma ones_repeat : forall p, ones p = repeat 1 (length p).
+Proof. induction p; simpl; auto. f_equal. auto. Qed.
+
+Lemma existsb_false_ge1 : forall (f : Z -> bool) l, (forall x, 1 <= x -> f x = false) ->
+  Forall (fun x => 1 <= x) l -> existsb f l = false.
+Proof. induction 2; simpl; auto. rewrite H by auto. auto. Qed.
+
+Lemma repeat1_ge1 : forall n, Forall (fun c => 1 <= c) (repeat 1 n).
+Proof. induction n; simpl; constructor; auto. lia. Qed.
+
+Lemma snoc_split : forall (l : list Z), l <> [] -> exists l' x, l = l' ++ [x].
+Proof. intros. destruct (exists_last H) as [l' [x E]]. eauto. Qed.
+
+(** NCgenio on a fixed-size variable: a request with positive counts and strides that reaches outside the shape
+    in any dimension returns -1 (each odometer position is an NCvario call; one of them is rejected) *)
+Lemma genio_oob_fails : forall w a start count stride,
+  is_recvar (acc_m a) = false -> (0 < length (m_shape (acc_m a)))%nat ->
+  length start = length (m_shape (acc_m a)) -> length count = length (m_shape (acc_m a)) ->
+  length stride = length (m_shape (acc_m a)) ->
+  Forall (fun c => 1 <= c) count -> Forall (fun t => 1 <= t) stride ->
+  all4 dim_in start stride count (m_shape (acc_m a)) = false ->
+  fst (genio w start count stride a) = false.
+Proof.
+  intros w a start count stride Hr Hn Hs Hc Ht Fc Ft Hout.
+  unfold genio. destruct (m_shape (acc_m a)) as [| d0 dr] eqn:Sh. simpl in Hn; lia.
+  rewrite <- Sh in *.
+  rewrite (existsb_false_ge1 (fun t => truth (genio_bad_stride t)) stride); auto.
+  2:{ intros x Hx. unfold truth, genio_bad_stride. replace (x <? 1) with false by (symmetry; apply Z.ltb_ge; lia). reflexivity. }
+  rewrite (existsb_false_ge1 (fun c => c <? 0) count); auto. 2:{ intros; apply Z.ltb_ge; lia. }
+  rewrite (existsb_false_ge1 (fun c => c =? 0) count); auto. 2:{ intros; apply Z.eqb_neq; lia. }
+  destruct (snoc_split start) as [sl [sx Es]]. { intro; subst; simpl in *; lia. }
+  destruct (snoc_split count) as [cl [cx Ec]]. { intro; subst; simpl in *; lia. }
+  destruct (snoc_split stride) as [tl [tx Et]]. { intro; subst; simpl in *; lia. }
+  destruct (snoc_split (m_shape (acc_m a))) as [dl [dx Ed]]. { intro E; rewrite E in Hn; simpl in Hn; lia. }
+  rewrite Es, Ec, Et, Ed in *. rewrite !app_length in *. cbn [length] in *.
+  assert (Ll : length cl = length sl /\ length tl = length sl /\ length dl = length sl) by lia.
+  destruct Ll as [Lc [Lt Ld]].
+  rewrite !last_last. replace (Nat.pred (length sl + 1)) with (length sl) by lia.
+  rewrite unit_last_spec.
+  apply Forall_app in Fc. destruct Fc as [Fcl Fcx]. inversion Fcx as [| ? ? Hcx _]; subst.
+  apply Forall_app in Ft. destruct Ft as [Ftl Ftx]. inversion Ftx as [| ? ? Htx _]; subst.
+  rewrite all4_app in Hout by lia. cbn [all4] in Hout. rewrite andb_true_r in Hout.
+  rewrite map3_snoc by lia.
+  apply genio_loop_false; auto.
+  1: rewrite Ed, app_length; cbn [length]; lia.
+  1: rewrite Ed, app_length; cbn [length];
+     destruct (tx =? 1); rewrite ?app_length, ?repeat_length; simpl; lia.
+  1: destruct (tx =? 1); [apply Forall_app; split; [apply repeat1_ge1 | constructor; auto] | apply repeat1_ge1].
+  rewrite Ed, app_length; cbn [length].
+  - destruct (tx =? 1) eqn:U.
+    + (* unity stride in the last dimension: the odometer runs over the leading dimensions only *)
+      apply Z.eqb_eq in U. subst tx.
+      rewrite firstn_exact by (apply map3_length; lia).
+      rewrite cartesian_snoc, genio_positions by (auto; lia).
+      destruct (all4 dim_in sl tl cl dl) eqn:Lead.
+      * simpl in Hout.
+        exists (sl ++ [sx]). split; [| split].
+        -- apply in_map_iff. exists sl. split; auto. apply slab_start_in; auto; lia.
+        -- rewrite !app_length. simpl. lia.
+        -- replace (ones (sl ++ [sx])) with (ones sl ++ [1]) by (unfold ones; rewrite map_app; reflexivity).
+           rewrite all4_app by (unfold ones; rewrite ?map_length, ?repeat_length; lia).
+           cbn [all4]. rewrite Hout. rewrite andb_false_r. reflexivity.
+      * destruct (strided_oob_cell sl tl cl dl) as [p [Pin Pbad]]; auto; try lia.
+        assert (Lp : length p = length sl) by (apply (slab_cells_len sl tl cl p); auto).
+        exists (p ++ [sx]). split; [| split].
+        -- apply in_map_iff. exists p. auto.
+        -- rewrite !app_length. simpl. lia.
+        -- replace (ones (p ++ [sx])) with (ones p ++ [1]) by (unfold ones; rewrite map_app; reflexivity).
+           rewrite all4_app by (unfold ones; rewrite ?map_length, ?repeat_length; lia).
+           rewrite (bad_cell_all4 p dl (repeat 1 (length sl))); auto; try lia.
+           rewrite repeat_length; lia. apply repeat1_ge1.
+    + rewrite <- map3_snoc by lia. rewrite genio_positions by (rewrite ?app_length; simpl; auto; try lia; apply Forall_app; auto).
+      destruct (strided_oob_cell (sl ++ [sx]) (tl ++ [tx]) (cl ++ [cx]) (dl ++ [dx])) as [p [Pin Pbad]];
+        rewrite ?app_length; simpl; auto; try lia; try (apply Forall_app; auto).
+      { rewrite all4_app by lia. cbn [all4]. rewrite andb_true_r. exact Hout. }
+      assert (Lp : length p = length (sl ++ [sx])).
+      { apply (slab_cells_len _ (tl ++ [tx]) (cl ++ [cx]) p); rewrite ?app_length; simpl; auto; lia. }
+      rewrite app_length in Lp. simpl in Lp.
+      exists p. split; [auto | split; [lia |]].
+      apply bad_cell_all4; rewrite ?app_length, ?repeat_length; simpl; auto; try lia. apply repeat1_ge1.
+Qed.
+
+Lemma forallb_ones : forall stride (start : list Z), forallb (fun t => t =? 1) stride = true ->
+  length stride = length start -> stride = ones start.
+Proof.
+  induction stride; destruct start; simpl; intros; try discriminate; auto.
+  apply andb_prop in H. destruct H as [A B]. apply Z.eqb_eq in A. subst. f_equal. apply IHstride; auto.
+Qed.
+
+(** SDwritedata on a fixed-size dataset, any rank/shape, stride NULL or any strides >= 1, positive counts:
+    a request reaching outside the shape in any dimension returns FAIL *)
+Lemma sd_write_rejected : forall m us start stride count vals,
+  is_recvar m = false -> (0 < length (m_shape m))%nat ->
+  length start = length (m_shape m) -> length count = length (m_shape m) ->
+  (us = true -> length stride = length (m_shape m) /\ Forall (fun t => 1 <= t) stride) ->
+  Forall (fun c => 1 <= c) count ->
+  all4 dim_in start (if us then stride else ones start) count (m_shape m) = false ->
+  exists m' tr, sd_write m us start stride count vals = (m', MRet (-1) tr).
+Proof.
+  intros m us start stride count vals Hr Hn Hs Hc Hu Fc Hout. unfold sd_write.
+  destruct us.
+  - destruct (Hu eq_refl) as [Ht Ft]. cbn [andb].
+    destruct (forallb (fun t => t =? 1) stride) eqn:A1; cbn [negb].
+    + rewrite (forallb_ones stride start A1) in Hout by lia.
+      pose proof (vario_oob_fails true (mkAcc m [] [] (map Val vals)) start count Hr Hn Hs Hc Fc Hout) as F.
+      destruct (vario true start count (mkAcc m [] [] (map Val vals))) as [ok a']. simpl in F. subst ok.
+      eexists. eexists. reflexivity.
+    + pose proof (genio_oob_fails true (mkAcc m [] [] (map Val vals)) start count stride Hr Hn Hs Hc Ht Fc Ft Hout) as F.
+      destruct (genio true start count stride (mkAcc m [] [] (map Val vals))) as [ok a']. simpl in F. subst ok.
+      eexists. eexists. reflexivity.
+  - cbn [andb].
+    pose proof (vario_oob_fails true (mkAcc m [] [] (map Val vals)) start count Hr Hn Hs Hc Fc Hout) as F.
+    destruct (vario true start count (mkAcc m [] [] (map Val vals))) as [ok a']. simpl in F. subst ok.
+    eexists. eexists. reflexivity.
+Qed.
+
+(** SDreaddata, same statement (the stride check rejects most such requests before any transfer; the rest --
+    negative starts -- are rejected by NCcoordck inside NCgenio/NCvario) *)
+Lemma sd_read_rejected : forall m us start stride count,
+  is_recvar m = false -> (0 < length (m_shape m))%nat ->
+  length start = length (m_shape m) -> length count = length (m_shape m) ->
+  (us = true -> length stride = length (m_shape m) /\ Forall (fun t => 1 <= t) stride) ->
+  Forall (fun c => 1 <= c) count ->
+  all4 dim_in start (if us then stride else ones start) count (m_shape m) = false ->
+  exists m' cells tr, sd_read m us start stride count = (m', MRead (-1) cells tr).
+Proof.
+  intros m us start stride count Hr Hn Hs Hc Hu Fc Hout. unfold sd_read.
+  match goal with |- context [if ?b then (m, MRead (-1) [] []) else _] => destruct b end.
+  - eexists. eexists. eexists. reflexivity.
+  - destruct us.
+    + destruct (Hu eq_refl) as [Ht Ft].
+      pose proof (genio_oob_fails false (mkAcc m [] [] []) start count stride Hr Hn Hs Hc Ht Fc Ft Hout) as F.
+      destruct (genio false start count stride (mkAcc m [] [] [])) as [ok a']. simpl in F. subst ok.
+      eexists. eexists. eexists. reflexivity.
+    + pose proof (vario_oob_fails false (mkAcc m [] [] []) start count Hr Hn Hs Hc Fc Hout) as F.
+      destruct (vario false start count (mkAcc m [] [] [])) as [ok a']. simpl in F. subst ok.
+      eexists. eexists. eexists. reflexivity.
 Qed.
